@@ -133,4 +133,70 @@ theorem allocating_call_takes_one_slot (s : St) (op : Op) (h : allocates op = tr
     | exact ⟨_, rfl⟩
     | exact ⟨_, by simp [fresh_handles]⟩
 
+theorem update_handles (s : St) (i : Nat) (f : Node → Node) : (s.update i f).handles = s.handles := rfl
+
+theorem detach_handles (s : St) (c : Nat) : (s.detach c).1.handles = s.handles := by
+  unfold St.detach; repeat' split
+  all_goals simp_all
+
+theorem insertChild_handles (s : St) (p c : Nat) (ref : Option Nat) : (insertChild s p c ref).1.handles = s.handles := by
+  unfold insertChild
+  repeat' split
+  all_goals first | rfl | (rename_i h; have := detach_handles s c; simp_all [update_handles])
+
+theorem removeChild_handles (s : St) (p c : Nat) : (removeChild s p c).1.handles = s.handles := by
+  unfold removeChild
+  repeat' split
+  all_goals first | rfl | (have := detach_handles s c; simp_all)
+theorem detachKeep_handles (s : St) (i : Nat) : (s.detachKeep i).handles = s.handles := by
+  unfold St.detachKeep; have := detach_handles s i; repeat' split
+  all_goals simp_all
+theorem detachAll_handles : ∀ (l : List Nat) (s : St), (s.detachAll l).handles = s.handles := by
+  intro l; induction l with
+  | nil => intro s; rfl
+  | cons i r ih => intro s; simp [St.detachAll, ih, detachKeep_handles]
+
+theorem dataOp_handles (s : St) (n : Nat) (f : Str → Option Str) : (Dom.step.dataOp s n f).1.handles = s.handles := by
+  unfold Dom.step.dataOp; repeat' split
+  all_goals rfl
+
+theorem insertChild_handles' {s s' : St} {p c : Nat} {ref : Option Nat} {r : Dom.Res}
+    (h : insertChild s p c ref = (s', r)) : s'.handles = s.handles := by
+  have := insertChild_handles s p c ref; rw [h] at this; exact this
+theorem removeChild_handles' {s s' : St} {p c : Nat} {r : Dom.Res}
+    (h : removeChild s p c = (s', r)) : s'.handles = s.handles := by
+  have := removeChild_handles s p c; rw [h] at this; exact this
+theorem detach_handles' {s s' : St} {c : Nat} {x : Option Node}
+    (h : s.detach c = (s', x)) : s'.handles = s.handles := by
+  have := detach_handles s c; rw [h] at this; exact this
+
+theorem quiet_call_keeps_handles (s : St) (op : Op) (h : allocates op = false) :
+    (Dom.step s op).1.handles = s.handles := by
+  cases op <;> simp [allocates] at h
+  all_goals simp only [Dom.step, insertChild_handles, removeChild_handles, dataOp_handles]
+  all_goals repeat' split
+  all_goals first
+    | rfl
+    | (simp_all [update_handles, detachAll_handles]; done)
+    | grind [insertChild_handles', removeChild_handles', detach_handles', update_handles, detachAll_handles, detachKeep_handles, insertChild_handles, removeChild_handles, St.fresh]
+/-- over a whole history: handles are only ever appended (a reference handed out earlier keeps its number and its
+    meaning), and their count is the initial count plus the number of reference-returning calls - successful or not -/
+theorem handles_after_history (ops : List Op) (s : St) :
+    s.handles <+: (ops.foldl (fun s op => (Dom.step s op).1) s).handles ∧
+    (ops.foldl (fun s op => (Dom.step s op).1) s).handles.length = s.handles.length + (ops.filter allocates).length := by
+  induction ops generalizing s with
+  | nil => simp
+  | cons op r ih =>
+    obtain ⟨ih1, ih2⟩ := ih (Dom.step s op).1
+    simp only [List.foldl_cons]
+    cases ha : allocates op with
+    | true =>
+      obtain ⟨x, hx⟩ := allocating_call_takes_one_slot s op ha
+      refine ⟨List.IsPrefix.trans ⟨[x], hx.symm⟩ ih1, ?_⟩
+      rw [ih2, hx]; simp [ha]; omega
+    | false =>
+      have hq := quiet_call_keeps_handles s op ha
+      refine ⟨by rw [hq] at ih1; exact ih1, ?_⟩
+      rw [ih2, hq]; simp [ha]
+
 end XmlRs.C13
